@@ -2,10 +2,12 @@ package props
 
 import (
 	"fmt"
+	"sort"
 	"strings"
 	"syscall"
 	"testing"
 
+	"github.com/hydraide/hydraide/app/core/hydra/swamp/beacon"
 	"github.com/hydraide/hydraide/app/core/hydra/swamp/chronicler"
 	"github.com/hydraide/hydraide/app/core/hydra/swamp/treasure"
 	"github.com/hydraide/hydraide/app/vshim/vos"
@@ -44,6 +46,26 @@ type c25run struct {
 }
 
 var c25steps = append(append([]storStep(nil), storAlphabet[:7]...), storStep{"Compact", 'K', nil})
+
+// c25w120: one batch of 120 entries over 60 keys (every key written twice): enough entries and fragmentation for the
+// self-heal compaction that Load runs on a fragmented file.
+func c25w120() storStep {
+	var b [][3]string
+	for round := 0; round < 2; round++ {
+		for i := 0; i < 60; i++ {
+			b = append(b, [3]string{fmt.Sprintf("k%02d", i), fmt.Sprint(round), ""})
+		}
+	}
+	return storStep{"W120", 'W', b}
+}
+
+// c25loadHistories: histories for the load-time compaction path (CompactFromIndex): the burst, optional barriers, then
+// Load by a fresh chronicler ('L'), optionally followed by further steps.
+func c25loadHistories() [][]storStep {
+	w, l := c25w120(), storStep{"Load", 'L', nil}
+	s, c, a := storAlphabet[3], storAlphabet[4], storAlphabet[0]
+	return [][]storStep{{w, l}, {w, s, l}, {w, c, l}, {w, c, l, a}, {w, l, a, s}, {w, c, l, l}}
+}
 
 // c25exec runs the history with at most one injected fault and then the two recovery rounds.
 func c25exec(steps []storStep, f *c25fault) *c25run {
@@ -96,6 +118,12 @@ func c25exec(steps []storStep, f *c25fault) *c25run {
 			if fc, okc := c.(interface{ ForceCompaction() error }); okc {
 				ok = fc.ForceCompaction() == nil
 			}
+		case 'L':
+			// the swamp is closed (its result is the step's barrier result) and opened again by a fresh chronicler,
+			// whose Load compacts a fragmented file in place
+			ok = c.Close() == nil
+			c = chronicler.NewV2WithName(swampPath, 1, "s/r/w")
+			c.Load(beacon.New())
 		}
 		run.syncOK = append(run.syncOK, ok)
 		run.entries = append(run.entries, ents)
@@ -128,7 +156,7 @@ func c25exec(steps []storStep, f *c25fault) *c25run {
 func c25allowed(steps []storStep, run *c25run) []string {
 	lastBarrier := -1
 	for si := 0; si < len(steps) && (run.faultStep < 0 || si < run.faultStep); si++ {
-		if (steps[si].op == 'S' || steps[si].op == 'C') && run.syncOK[si] {
+		if (steps[si].op == 'S' || steps[si].op == 'C' || steps[si].op == 'L') && run.syncOK[si] {
 			lastBarrier = si
 		}
 	}
@@ -186,6 +214,75 @@ func c25allowed(steps []storStep, run *c25run) []string {
 	return out
 }
 
+// c25admits decides admissibility key by key (the entries of the uncertain window may be lost individually, so the
+// keys are independent): for each key the set of possible final values is built by walking its entries in order - a
+// certain entry replaces the set by its own value, an uncertain one adds its value to the set.
+func c25admits(steps []storStep, run *c25run, final map[string]string) (bool, string) {
+	lastBarrier := -1
+	for si := 0; si < len(steps) && (run.faultStep < 0 || si < run.faultStep); si++ {
+		if (steps[si].op == 'S' || steps[si].op == 'C' || steps[si].op == 'L') && run.syncOK[si] {
+			lastBarrier = si
+		}
+	}
+	if run.faultStep >= 0 {
+		for i := 0; i < run.faultAt && i < len(run.log); i++ {
+			if run.log[i].Kind == vos.OpSync && run.log[i].Path == hydPath && run.stepOfOp[i] > lastBarrier {
+				lastBarrier = run.stepOfOp[i]
+			}
+		}
+	}
+	const absent = "\x00absent"
+	poss := map[string]map[string]bool{}
+	set := func(k string, certain bool, v string) {
+		if poss[k] == nil {
+			poss[k] = map[string]bool{absent: true}
+		}
+		if certain {
+			poss[k] = map[string]bool{v: true}
+		} else {
+			poss[k][v] = true
+		}
+	}
+	for si := range steps {
+		uncertain := run.faultStep >= 0 && si > lastBarrier && si <= run.faultStep
+		for _, kv := range run.entries[si] {
+			v := kv[1]
+			if kv[2] == "d" {
+				v = absent
+			}
+			set(kv[0], !uncertain, v)
+		}
+	}
+	set("c", true, "9")
+	set("d", true, "9")
+	for k, p := range poss {
+		got, ok := final[k]
+		if !ok {
+			got = absent
+		}
+		if !p[got] {
+			var al []string
+			for v := range p {
+				if v == absent {
+					v = "<absent>"
+				}
+				al = append(al, v)
+			}
+			sort.Strings(al)
+			if got == absent {
+				got = "<absent>"
+			}
+			return false, fmt.Sprintf("key %s loads %s, admissible %v", k, got, al)
+		}
+	}
+	for k := range final {
+		if poss[k] == nil {
+			return false, fmt.Sprintf("key %s loads although it was never written", k)
+		}
+	}
+	return true, ""
+}
+
 func TestC25(t *testing.T) {
 	quietLogs()
 	r := kit.Start("C25", "fault_enumeration")
@@ -198,7 +295,7 @@ func TestC25(t *testing.T) {
 	for _, s := range c25steps {
 		names = append(names, s.name)
 	}
-	r.Rule = fmt.Sprintf("write histories = all sequences of length 1..%d over %v on the real V2 chronicler (Compact = ForceCompaction) over the in-memory file system; the fault-free run gives the file-operation log; then EVERY single fault: each mutating file operation (create, write, truncate, fsync, rename, remove) fails with EIO, and each write is also performed short (0, 1, len/2, len-1 bytes, with ENOSPC); afterwards the device is healthy, the history continues, two more batches (c=9, d=9) are written and synced, the swamp is closed and loaded by a fresh chronicler. Oracle: the loaded state equals the reference state in which everything covered by a Sync/Close that returned nil before the fault, everything written after the faulted step and the two recovery batches are present, while each entry of the window hit by the fault may be present or lost; the recovery Syncs and the Close succeed. Non-trivial = injected faults that actually fired", maxLen, names)
+	r.Rule = fmt.Sprintf("write histories = all sequences of length 1..%d over %v, plus six histories that write a burst of 120 entries over 60 keys and then have a fresh chronicler Load the file (the load-time self-heal compaction, CompactFromIndex), on the real V2 chronicler (Compact = ForceCompaction) over the in-memory file system; the fault-free run gives the file-operation log; then EVERY single fault: each mutating file operation (create, write, truncate, fsync, rename, remove) fails with EIO, and each write is also performed short (0, 1, len/2, len-1 bytes, with ENOSPC); afterwards the device is healthy, the history continues, two more batches (c=9, d=9) are written and synced, the swamp is closed and loaded by a fresh chronicler. Oracle: the loaded state equals the reference state in which everything covered by a Sync/Close that returned nil before the fault, everything written after the faulted step and the two recovery batches are present, while each entry of the window hit by the fault may be present or lost; the recovery Syncs and the Close succeed. Non-trivial = injected faults that actually fired", maxLen, names)
 	r.Assumptions = []string{"one fault per run; the device is healthy afterwards", "entries of the batch(es) between the last successful barrier before the fault and the end of the faulted step may individually be lost (the engine logs and skips failed block writes)"}
 	r.Parallel(16, "TestC25", func() {
 		forEachSeq(len(c25steps), maxLen, func(idx int, seq []int) bool {
@@ -214,64 +311,94 @@ func TestC25(t *testing.T) {
 			for i, s := range seq {
 				steps[i], hn[i] = c25steps[s], c25steps[s].name
 			}
-			base := c25exec(steps, nil)
-			r.Eval(1)
-			if got, al := fmtState(base.final), c25allowed(steps, base); !inList(al, got) {
-				r.Fail("faults", "fault-free-run-differs-from-model", fmt.Sprintf("history %v without any fault loads {%s}, model %v", hn, got, al), map[string]any{"history": hn})
-				return true
-			}
-			for k, op := range base.log {
-				var faults []c25fault
-				faults = append(faults, c25fault{k, -1, syscall.EIO})
-				if op.Kind == vos.OpWrite && len(op.Data) > 0 {
-					for _, b := range []int{0, 1, len(op.Data) / 2, len(op.Data) - 1} {
-						if b >= 0 && b < len(op.Data) {
-							faults = append(faults, c25fault{k, b, syscall.ENOSPC})
-						}
-					}
-				}
-				for _, f := range faults {
-					f := f
-					run := c25exec(steps, &f)
-					r.Eval(1)
-					if run.faultStep < 0 {
-						r.Count("faults_that_did_not_fire", 1)
-						continue
-					}
-					r.Nontrivial(fmt.Sprintf("%v/%v", seq, f))
-					got := fmtState(run.final)
-					allowed := c25allowed(steps, run)
-					kind := strings.Fields(run.faultOp)[0]
-					if strings.HasSuffix(strings.Fields(run.faultOp)[1], ".compact") {
-						kind += "-of-compaction-temp"
-					}
-					how := "fails"
-					if f.short >= 0 {
-						how = "short"
-					}
-					during := steps[run.faultStep].name
-					if steps[run.faultStep].op == 'W' {
-						during = "Write"
-					}
-					cs := map[string]any{"history": hn, "fault": f.String(), "faulted_operation": run.faultOp, "during_step": run.faultStep, "loaded": got, "allowed": allowed}
-					r.Outcome(fmt.Sprintf("%s/%s/%v", kind, how, inList(allowed, got)))
-					if !inList(allowed, got) {
-						res := "wrong-state"
-						if len(run.final) == 0 {
-							res = "loads-empty"
-						} else if _, ok := run.final["d"]; !ok {
-							res = "post-fault-writes-lost"
-						}
-						r.Fail("faults", fmt.Sprintf("%s-%s-during-%s:%s", kind, how, during, res), fmt.Sprintf("history %v, %s (%s) during step %d: after recovery the swamp loads {%s}; admissible %v", hn, f, run.faultOp, run.faultStep, got, allowed), cs)
-					} else if !run.recovered {
-						r.Fail("faults", fmt.Sprintf("%s-%s-during-%s:sync-or-close-fails-after-the-fault-cleared", kind, how, during), fmt.Sprintf("history %v, %s: a Sync or the Close after the fault cleared returned an error", hn, f), cs)
-					}
-					if idx == 30 && k == 2 {
-						r.Sample(cs)
-					}
-				}
-			}
-			return true
+			return c25one(r, idx, seq, steps, hn)
 		})
+		for li, steps := range c25loadHistories() {
+			if !r.Mine(li) {
+				continue
+			}
+			var hn []string
+			for _, st := range steps {
+				hn = append(hn, st.name)
+			}
+			c25one(r, 1000000+li, []int{1000000 + li}, steps, hn)
+		}
 	})
+}
+
+// c25one runs one history fault-free and then with every single fault.
+func c25one(r *kit.Run, idx int, seq []int, steps []storStep, hn []string) bool {
+	base := c25exec(steps, nil)
+	r.Eval(1)
+	if ok, why := c25admits(steps, base, base.final); !ok {
+		r.Fail("faults", "fault-free-run-differs-from-model", fmt.Sprintf("history %v without any fault: %s", hn, why), map[string]any{"history": hn})
+		return true
+	}
+	for k, op := range base.log {
+		var faults []c25fault
+		faults = append(faults, c25fault{k, -1, syscall.EIO})
+		if op.Kind == vos.OpWrite && len(op.Data) > 0 {
+			for _, b := range []int{0, 1, len(op.Data) / 2, len(op.Data) - 1} {
+				if b >= 0 && b < len(op.Data) {
+					faults = append(faults, c25fault{k, b, syscall.ENOSPC})
+				}
+			}
+		}
+		for _, f := range faults {
+			f := f
+			run := c25exec(steps, &f)
+			r.Eval(1)
+			if run.faultStep < 0 {
+				r.Count("faults_that_did_not_fire", 1)
+				continue
+			}
+			r.Nontrivial(fmt.Sprintf("%v/%v", seq, f))
+			got := fmtState(run.final)
+			if len(got) > 300 {
+				got = got[:300] + "..."
+			}
+			admitted, why := c25admits(steps, run, run.final)
+			var allowed []string
+			if n := len(run.entries); n > 0 {
+				cnt := 0
+				for _, e := range run.entries {
+					cnt += len(e)
+				}
+				if cnt <= 12 {
+					allowed = c25allowed(steps, run)
+				} else {
+					allowed = []string{"(per key) " + why}
+				}
+			}
+			kind := strings.Fields(run.faultOp)[0]
+			if strings.HasSuffix(strings.Fields(run.faultOp)[1], ".compact") {
+				kind += "-of-compaction-temp"
+			}
+			how := "fails"
+			if f.short >= 0 {
+				how = "short"
+			}
+			during := steps[run.faultStep].name
+			if steps[run.faultStep].op == 'W' {
+				during = "Write"
+			}
+			cs := map[string]any{"history": hn, "fault": f.String(), "faulted_operation": run.faultOp, "during_step": run.faultStep, "loaded": got, "allowed": allowed}
+			r.Outcome(fmt.Sprintf("%s/%s/%v", kind, how, admitted))
+			if !admitted {
+				res := "wrong-state"
+				if len(run.final) == 0 {
+					res = "loads-empty"
+				} else if _, ok := run.final["d"]; !ok {
+					res = "post-fault-writes-lost"
+				}
+				r.Fail("faults", fmt.Sprintf("%s-%s-during-%s:%s", kind, how, during, res), fmt.Sprintf("history %v, %s (%s) during step %d: after recovery the swamp loads {%s}; admissible %v", hn, f, run.faultOp, run.faultStep, got, allowed), cs)
+			} else if !run.recovered {
+				r.Fail("faults", fmt.Sprintf("%s-%s-during-%s:sync-or-close-fails-after-the-fault-cleared", kind, how, during), fmt.Sprintf("history %v, %s: a Sync or the Close after the fault cleared returned an error", hn, f), cs)
+			}
+			if idx == 30 && k == 2 {
+				r.Sample(cs)
+			}
+		}
+	}
+	return true
 }
